@@ -7,7 +7,7 @@ from common import from_replay, to_replay  # noqa: F401
 
 PID = "C10"
 COQ_MODULE = "Prop_C10"
-THEOREMS = ['C10_every_history_relaxed', 'C10_no_panic_no_poison', 'C10_guard_panic_poisons', 'C10_own_scoped_panic_poisons', 'C10_poisoned_still_acquires', 'C10_refuted_scoped_collection', "C10_every_schedule_never_killed", "C10_every_schedule_no_panic_no_poison"]
+THEOREMS = ['C10_every_history_relaxed', 'C10_no_panic_no_poison', 'C10_guard_panic_poisons', 'C10_own_scoped_panic_poisons', 'C10_poisoned_still_acquires', 'C10_refuted_scoped_collection', "C10_every_schedule_never_killed", "C10_every_schedule_no_panic_no_poison", "C10_every_history_panics_release_cleanly"]
 CASE_MODULES = ["Pf_Hist", "Monitors", "Conc", "BMonitors"]
 CHECK_WITHOUT_PROOF = True
 SHRINK_GUARD = 0      # which of the booleans evaluated with the verdict certifies the theorem's hypotheses
